@@ -528,6 +528,20 @@ fn parser(token_stream: Vec<Token>) -> Result<Polynomial, PolynomialError> {
     Ok(Polynomial::new(fold_operations(ast_node)))
 }
 
+// The operand that replaces a folded `(0 + a*b)` inherits its parentheses: `(0 + a*b)^2`
+// must stay `(a*b)^2`, not become `a*b^2`
+fn keep_paren(mut expr: Expr, paren: bool) -> Expr {
+    if paren
+        && let Expr::BinaryOp {
+            paren: ref mut flag,
+            ..
+        } = expr
+    {
+        *flag = true;
+    }
+    expr
+}
+
 fn fold_operations(expr: Expr) -> Expr {
     match expr {
         Expr::Number(_) | Expr::Variable(_) | Expr::Constant(_) => expr,
@@ -547,21 +561,22 @@ fn fold_operations(expr: Expr) -> Expr {
                 // _^0 = 1 & 0^_ = 0
                 // Note: Above condition includes 0^0
                 (Operators::Caret, _, Expr::Number(0.)) => Expr::Number(1.),
-                (Operators::Caret, Expr::Number(0.), _) => Expr::Number(0.),
+                // only for a literal exponent: `0^x` is 1, not 0, where x evaluates to 0
+                (Operators::Caret, Expr::Number(0.), Expr::Number(_)) => Expr::Number(0.),
 
                 // x+0 = x
-                (Operators::Add, Expr::Number(0.), r) => r,
-                (Operators::Add, l, Expr::Number(0.)) => l,
+                (Operators::Add, Expr::Number(0.), r) => keep_paren(r, paren),
+                (Operators::Add, l, Expr::Number(0.)) => keep_paren(l, paren),
 
                 // 0-x = -x & x-0 = x
-                (Operators::Sub, l, Expr::Number(0.)) => l,
+                (Operators::Sub, l, Expr::Number(0.)) => keep_paren(l, paren),
                 (Operators::Sub, Expr::Number(0.), r) => Expr::UnaryOpPrefix {
                     op: Operators::Sub,
                     value: Box::new(fold_operations(r)),
                 },
 
                 // x/1 = x
-                (Operators::Div, l, Expr::Number(1.)) => l,
+                (Operators::Div, l, Expr::Number(1.)) => keep_paren(l, paren),
 
                 // Non foldable conditions
                 (_, l, r) => Expr::BinaryOp {
